@@ -10,7 +10,7 @@ from .. import env, refmath
 
 ID = "C02"
 LEVEL = "exploration"
-BUDGET = {"quick": 4000, "thorough": 64000}
+BUDGET = {"quick": 4000, "thorough": 240000}
 SHARDS = {"quick": 8, "thorough": 16}
 RULE = (
     "case = (namespace, float width, N in [2,400], three generated log-density vectors "
